@@ -589,10 +589,19 @@ pub fn check(tier: &str, seed: i64) -> i32 {
             }
         }
     }
-    let timeout = Duration::from_secs(if thorough { 900 } else { 240 });
+    let timeout = Duration::from_secs(if thorough { 600 } else { 100 });
     let results: Vec<(Vec<String>, Result<serde_json::Value, String>)> = insts.par_iter().map(|i| (i.clone(), run_child(&exe, i, timeout))).collect();
     let mut groups: BTreeMap<String, (u64, Vec<String>, String)> = BTreeMap::new();
     let mut timeouts = Vec::new();
+    // wall time of every finished instance, to judge the ones that did not finish
+    let mut walls: BTreeMap<(String, String, String, String), Vec<(usize, f64)>> = BTreeMap::new();
+    for (inst, r) in results.iter() {
+        if let Ok(j) = r {
+            if let Some(w) = j.get("wall_s").and_then(|x| x.as_f64()) {
+                walls.entry((inst[0].clone(), inst[1].clone(), inst[2].clone(), inst[4].clone())).or_default().push((inst[3].parse().unwrap(), w));
+            }
+        }
+    }
     let mut evs: u64 = 0;
     let mut executed: u64 = 0;
     let mut samples = Vec::new();
@@ -605,7 +614,33 @@ pub fn check(tier: &str, seed: i64) -> i32 {
             }
             Ok(j) => {
                 if j.get("timeout").is_some() {
-                    timeouts.push(inst.join(" "));
+                    // a time limit is not a verdict by itself (slow machine); it is one when the
+                    // same instance family at <= half the size needed less than 1/200 of the limit:
+                    // no polynomial of reasonable degree grows that fast
+                    let n: usize = inst[3].parse().unwrap();
+                    let smaller = walls
+                        .get(&(inst[0].clone(), inst[1].clone(), inst[2].clone(), inst[4].clone()))
+                        .and_then(|v| v.iter().filter(|(sz, _)| *sz * 2 <= n).max_by_key(|(sz, _)| *sz).cloned());
+                    match smaller {
+                        Some((sz, w)) if w * 200.0 < timeout.as_secs_f64() => {
+                            let msg = format!(
+                                "{}: blowup: not finished within {}s at {} jobs while {} jobs took {:.3}s (super-polynomial growth)",
+                                inst[2],
+                                timeout.as_secs(),
+                                n,
+                                sz,
+                                w
+                            );
+                            let kind = format!("blowup/{}", inst[2]);
+                            let e = groups.entry(kind).or_insert((0, inst.clone(), msg.clone()));
+                            e.0 += 1;
+                            if n < e.1[3].parse::<usize>().unwrap() {
+                                e.1 = inst.clone();
+                                e.2 = msg;
+                            }
+                        }
+                        _ => timeouts.push(inst.join(" ")),
+                    }
                     continue;
                 }
                 evs += j["events"].as_u64().unwrap_or(0);
@@ -648,6 +683,8 @@ pub fn check(tier: &str, seed: i64) -> i32 {
         for _ in 0..2 {
             if let Ok(j) = run_child(&exe, inst, timeout) {
                 if j["violations"].as_array().map(|a| a.iter().any(|v| classify(v.as_str().unwrap_or("")) == *kind)).unwrap_or(false) {
+                    reproduced += 1;
+                } else if kind.starts_with("blowup/") && j.get("timeout").is_some() {
                     reproduced += 1;
                 }
             }
